@@ -13,12 +13,22 @@ class Stream(object):
     def __init__(self, np, zs):
         self.np, self.zs, self.i = np, list(zs), 0
 
-    def randn(self, *shape):
+    def _next(self):
         if self.i >= len(self.zs):
             raise RuntimeError('draw stream exhausted')
         z = self.zs[self.i]
         self.i += 1
-        return self.np.array([z]) if shape else z
+        return z
+
+    def randn(self, *shape):
+        # any shape is served from the stream in order, so a change of the drawing pattern shows up as different values (a
+        # correspondence disagreement), not as an exception of the stub
+        if not shape:
+            return self._next()
+        n = 1
+        for d in shape:
+            n *= int(d)
+        return self.np.array([self._next() for _ in range(n)], dtype=float).reshape(shape)
 
 
 class C06(Prop):
